@@ -88,10 +88,23 @@ def _is_cache_size(e, param):
             and _is_name(e.value.func.value, param))
 
 
-def _pure_expr(e, locals_ok):
-    """comparison of local names / constants only"""
-    return all(isinstance(x, (ast.Compare, ast.Name, ast.Constant, ast.Eq, ast.NotEq, ast.Load, ast.BoolOp, ast.And, ast.Or))
-               and (not isinstance(x, ast.Name) or x.id in locals_ok) for x in ast.walk(e))
+def _pure_expr(e, locals_ok, param=None):
+    """an expression that can neither touch the cached tree nor have an effect: comparisons / Boolean combinations of harmless locals,
+    constants and (if param is given) reads of the cache size"""
+    if param is not None and _is_cache_size(e, param):
+        return True
+    if isinstance(e, ast.Constant):
+        return True
+    if isinstance(e, ast.Name):
+        return e.id in locals_ok
+    if isinstance(e, ast.Compare):
+        return all(isinstance(o, (ast.Eq, ast.NotEq, ast.Lt, ast.LtE, ast.Gt, ast.GtE)) for o in e.ops) and \
+            all(_pure_expr(x, locals_ok, param) for x in [e.left] + list(e.comparators))
+    if isinstance(e, ast.BoolOp):
+        return all(_pure_expr(x, locals_ok, param) for x in e.values)
+    if isinstance(e, ast.UnaryOp) and isinstance(e.op, ast.Not):
+        return _pure_expr(e.operand, locals_ok, param)
+    return False
 
 
 def _is_log_call(stmt):
@@ -147,12 +160,12 @@ def copy_mode():
                 if result_var is not None:
                     raise Untranslatable("the cached function is called more than once")
                 result_var = name
-            elif _is_cache_size(s.value, param):
-                locals_ok.add(name)
+            elif _pure_expr(s.value, locals_ok, param):
+                locals_ok.add(name)   # a cache size, or a comparison of such: never the tree
             else:
                 raise Untranslatable("unsupported assignment in decorated: " + ast.unparse(s))
         elif isinstance(s, ast.If):
-            if not _pure_expr(s.test, locals_ok) or s.orelse or not all(_is_log_call(x) for x in s.body):
+            if not _pure_expr(s.test, locals_ok, param) or not all(_is_log_call(x) or isinstance(x, ast.Pass) for x in list(s.body) + list(s.orelse)):
                 raise Untranslatable("unsupported if-statement in decorated: " + ast.unparse(s))
         elif _is_log_call(s):
             pass
